@@ -195,6 +195,40 @@ def run_property(pid, level, units, explanation, trusted_base, min_obligations=1
             results = pool.map(_run_unit_idx, range(len(todo)), chunksize=1)
     else:
         results = [_run_unit(t) for t in todo]
+    dump = argv[argv.index("--dump-records") + 1] if "--dump-records" in argv else None
+    if dump is not None:
+        # child of a thorough run (second generic extent): hand the raw unit results to the parent, write nothing else
+        json.dump(jsonable(results), open(dump, "w"))
+        return 0
+    if tier == "thorough" and os.environ.get("VERIF_NS") is None and os.environ.get("VERIF_SECOND_PASS", "1") != "0":
+        # thorough tier: every unit is regenerated with a second generic sample extent (NS = 3), so that a fact which holds only because an
+        # axis has length 2 fails; the records are merged under names suffixed with ' @NS=3'
+        import subprocess
+        import tempfile
+        os.makedirs(os.path.join(VERIF, ".build"), exist_ok=True)
+        fd, tmp = tempfile.mkstemp(suffix=".json", dir=os.path.join(VERIF, ".build"))
+        os.close(fd)
+        env2 = dict(os.environ, VERIF_NS="3")
+        try:
+            cp = subprocess.run([sys.executable, os.path.abspath(sys.argv[0])] + [a for a in argv] + ["--dump-records", tmp], env=env2, cwd=VERIF,
+                                capture_output=True, text=True, timeout=6 * 3600)
+            second = json.load(open(tmp)) if os.path.getsize(tmp) > 0 else None
+        except Exception as e:
+            second, cp = None, None
+        finally:
+            if os.path.exists(tmp):
+                os.unlink(tmp)
+        if second is None:
+            results.append({"unit": "__second_pass__", "records": [{"kind": "obligation", "name": "__second_pass__ (NS=3) ran", "status": "error", "backend": "checker", "seconds": 0.0,
+                                                                    "detail": "the NS=3 pass did not produce records: %s" % ((cp.stderr[-400:] if cp is not None else "subprocess failed")),
+                                                                    "witness": None, "functions": [], "cases": 0}], "assumptions": [], "functions": {}, "seconds": 0.0, "smt": {}})
+        else:
+            for r in second:
+                r["unit"] = r["unit"] + " @NS=3"
+                for rec in r["records"]:
+                    rec["name"] = rec["name"] + " @NS=3"
+            results.extend(second)
+            trusted_base = list(trusted_base) + ["thorough tier: all units run twice, with generic sample extents NS = 2 and NS = 3 (records of the second run are suffixed ' @NS=3')"]
     records, assumptions, functions = [], list(trusted_base), {}
     smt_tot = {}
     for r in results:
@@ -216,8 +250,9 @@ def run_property(pid, level, units, explanation, trusted_base, min_obligations=1
     os.makedirs(os.path.join(VERIF, "replays", pid), exist_ok=True)
 
     def known(r):
+        nm = r["name"][:-len(" @NS=3")] if r["name"].endswith(" @NS=3") else r["name"]
         for f in known_open:
-            if f.get("obligation") == r["name"]:
+            if f.get("obligation") == nm:
                 return f
         return None
 
@@ -239,8 +274,9 @@ def run_property(pid, level, units, explanation, trusted_base, min_obligations=1
             errors.append(r)
             continue
         if f is not None:
+            if f["obligation"] not in used_known:
+                lines.append("KNOWN-FINDING: property=%s %s [%s]" % (pid, f.get("what", ""), r["name"]))
             used_known.add(f["obligation"])
-            lines.append("KNOWN-FINDING: property=%s %s [%s]" % (pid, f.get("what", ""), r["name"]))
             continue
         violations += 1
         path = os.path.join(VERIF, "replays", pid, r["name"].replace("/", "__").replace(" ", "_")[:150] + ".json")
